@@ -473,6 +473,8 @@ def list_states(f, init_lists, queue_key):
                 empty = (pol != neg)
                 if empty:
                     return put(s, k, "E")
+                if get(s, k) == "E":
+                    return []  # known empty (nothing was added since): the not-empty branch of a repeated test is not taken
                 return put(s, k, "N")
         return s
 
